@@ -61,29 +61,47 @@ def main():
     meta['confirmed'] = bool(meta['patch_applies'] and rc0 == 0 and rc1 != 0 and
                              (skip_tests or meta.get('pinned_tests_passed_with_patch', 0) >= 58))
 
-    # our check against the change
+    # our check against the change.  Default: a scratch worktree of /repo HEAD with the patch applied, handed to
+    # ./check through EDB_VERIF_REPO (other work on /repo is not disturbed).  --in-repo applies it to /repo itself
+    # (git -C /repo apply; ./check; git -C /repo checkout -- .), which is how the checks are meant to be used.
     if meta['patch_applies']:
-        rc, o = sh('git status --porcelain', cwd='/repo')
-        if o.strip():
-            print('/repo is not clean; refusing', o)
-            sys.exit(2)
+        in_repo = '--in-repo' in sys.argv
         ev = os.path.join(VERIF, 'evidence', f'{pid}.json')
         ev_saved = open(ev).read() if os.path.exists(ev) else None
+        scratch = f'/tmp/seedrun-{sid}'
         try:
-            rc, o = sh(f'git apply {out}/patch.diff', cwd='/repo')
-            t = time.time()
-            rc, o = sh(f'./check {pid} --tier {tier}', cwd=VERIF, timeout=7200)
-            meta['check'] = {'tier': tier, 'rc': rc, 'wall_s': round(time.time() - t, 1),
-                             'violation_lines': [l for l in o.splitlines() if l.startswith('VIOLATION')],
-                             'tail': o[-1500:]}
-            meta['ran'].append(f'git -C /repo apply patch.diff && ./check {pid} --tier {tier}; git -C /repo checkout -- .')
-            # keep the replay file of this run next to the seed
-            for l in meta['check']['violation_lines']:
-                m = re.search(r'replay=(\S+)', l)
-                if m and os.path.exists(os.path.join(VERIF, m.group(1))):
-                    shutil.copy(os.path.join(VERIF, m.group(1)), os.path.join(out, 'replay.json'))
+            if in_repo:
+                rc, o = sh('git status --porcelain', cwd='/repo')
+                if o.strip():
+                    print('/repo is not clean; refusing', o)
+                    sys.exit(2)
+                target, cenv = '/repo', dict(os.environ)
+            else:
+                sh(f'git -C /repo worktree remove --force {scratch}')
+                rc, o = sh(f'git -C /repo worktree add -q --detach {scratch} HEAD')
+                target, cenv = scratch, dict(os.environ, EDB_VERIF_REPO=scratch)
+            rc, o = sh(f'git apply {out}/patch.diff', cwd=target)
+            meta['patch_applies_on_head'] = rc == 0
+            if rc != 0:
+                meta['check'] = {'rc': None, 'violation_lines': [], 'tail': 'patch does not apply on current HEAD: ' + o[-300:]}
+            else:
+                t = time.time()
+                rc, o = sh(f'./check {pid} --tier {tier}', cwd=VERIF, timeout=7200, env=cenv)
+                meta['check'] = {'tier': tier, 'rc': rc, 'wall_s': round(time.time() - t, 1),
+                                 'violation_lines': [l for l in o.splitlines() if l.startswith('VIOLATION')],
+                                 'tail': o[-1500:]}
+                meta['ran'].append(('git -C /repo apply patch.diff && ./check %s --tier %s; git -C /repo checkout -- .' % (pid, tier))
+                                   if in_repo else
+                                   ('scratch worktree of /repo HEAD + patch.diff; EDB_VERIF_REPO=<scratch> ./check %s --tier %s' % (pid, tier)))
+                for l in meta['check']['violation_lines']:
+                    m = re.search(r'replay=(\S+)', l)
+                    if m and os.path.exists(os.path.join(VERIF, m.group(1))):
+                        shutil.copy(os.path.join(VERIF, m.group(1)), os.path.join(out, 'replay.json'))
         finally:
-            sh('git checkout -- .', cwd='/repo')
+            if in_repo:
+                sh('git checkout -- .', cwd='/repo')
+            else:
+                sh(f'git -C /repo worktree remove --force {scratch}')
             if ev_saved is not None:        # evidence must describe the unchanged tree
                 open(ev, 'w').write(ev_saved)
     meta['caught'] = bool(meta.get('check', {}).get('rc') == 1 and meta['check']['violation_lines'])
